@@ -180,8 +180,13 @@ def _reg_script(actions):
 
 
 def _judge_registry(chk, states, script, source, stale=False):
-  """Property-level verdict on the recorded heartbeat sequence of one real execution."""
-  dead_seen = False
+  """Property-level verdict on the recorded heartbeat sequence of one real execution.
+
+  Deadness is taken from the events, not from how the registry represents it: the worker is dead from the
+  last step of a not-alive heartbeat handler (its notice is recorded) until a later alive handler writes."""
+  last_step = {p: max(j for j, q in enumerate(script) if q == p) for p in set(script)}
+  dead = False
+  death_written = None
   for i in range(1, len(states)):
     a, b = states[i - 1], states[i]
     who = script[i - 1] if i - 1 < len(script) else '?'
@@ -189,20 +194,24 @@ def _judge_registry(chk, states, script, source, stale=False):
       chk.violation('registry:heartbeat-moved-backwards', f'recorded heartbeat {a} -> {b} by {who}; schedule {script}',
                     dict(kind='registry', schedule=script, states=states, source=source))
       return
-    if a == -1 and b != -1:
+    if (a == -1 or dead) and a <= 0 and b > 0:
       if who in REG_CALLS:
         chk.violation('registry:dead-revived-by-late-completion', f'{a} -> {b} by {who}; schedule {script}',
                       dict(kind='registry', schedule=script, states=states, source=source))
         return
       # revived by a server-side alive heartbeat: stale if that handler read its clock before the death notice was written
       started = script.index(who)
-      death_written = max(j for j in range(i) if states[j + 1] == -1 and states[j] != -1) if any(
-          states[j + 1] == -1 and states[j] != -1 for j in range(i)) else None
+      if death_written is None and any(states[j + 1] == -1 and states[j] != -1 for j in range(i)):
+        death_written = max(j for j in range(i) if states[j + 1] == -1 and states[j] != -1)
       if death_written is not None and started < death_written:
         chk.violation('registry:dead-revived-by-stale-alive-heartbeat',
                       f'handler {who} read its clock before the death notice was recorded and revived the worker: {states}; '
                       f'schedule {script}', dict(kind='registry', schedule=script, states=states, source=source))
         return
+      dead = False
+    if who in REG_HANDLERS and not REG_HANDLERS[who] and last_step.get(who) == i - 1:
+      dead = True
+      death_written = i - 1
 
 
 # ------------------------------------------------------------------ ownership
@@ -241,6 +250,9 @@ def run_ownership(progs, pool_of, workers, script, strict=True, policy=None):
         return ret
 
       courier_worker.Worker.release = traced_release
+      # no servers in this part: a worker always has capacity and is alive
+      courier_worker.Worker.has_capacity = property(lambda self: True)
+      courier_worker.Worker.is_alive = property(lambda self: True)
 
       def body(t):
         def run():
@@ -249,6 +261,11 @@ def run_ownership(progs, pool_of, workers, script, strict=True, policy=None):
           for op in progs[t]:
             if op == 'acquire_all':
               pool._acquire_all()
+            elif op == 'idle_run':
+              # WorkerPool.run without the remote call: pick an idle worker, then run's `finally: worker.release()`
+              w = pool.next_idle_worker(maybe_acquire=True)
+              if w is not None:
+                w.release()
             else:
               pool.release_all()
         return run
@@ -256,11 +273,16 @@ def run_ownership(progs, pool_of, workers, script, strict=True, policy=None):
       for t in progs:
         sch.spawn(t, body(t))
       failure = sch.run(timeout=20)
-      courier_worker.Worker.release = orig_release
       trace = [t for t, _ in sch.trace]
       return states, releases, failure, trace
     finally:
       sched.set_active(None)
+      try:
+        courier_worker.Worker.release = orig_release
+        del courier_worker.Worker.has_capacity
+        del courier_worker.Worker.is_alive
+      except Exception:  # pylint: disable=broad-exception-caught
+        pass
 
 
 def _judge_ownership(chk, states, releases, script, source):
@@ -287,6 +309,8 @@ def ownership_part(chk, rnd):
       ('2 pools x 2 workers', {'a1': ['acquire_all', 'release_all'], 'b1': ['acquire_all', 'release_all']},
        {'a1': 'A', 'b1': 'B'}, ['w1', 'w2']),
   ]
+  cfgs.append(('2 pools x 2 workers, run picks an idle worker',
+               {'a1': ['acquire_all', 'idle_run', 'release_all'], 'b1': ['idle_run', 'idle_run']}, {'a1': 'A', 'b1': 'B'}, ['w1', 'w2']))
   if chk.tier == 'thorough':
     cfgs.append(('2 pools, 2 threads in pool A', {'a1': ['acquire_all', 'release_all'], 'a2': ['release_all'],
                                                   'b1': ['acquire_all', 'release_all', 'acquire_all']},
